@@ -80,7 +80,7 @@ def _rc(lst, i):
 
 
 class World:
-    def __init__(self, flavour, site=None, action=None, audit=True):
+    def __init__(self, flavour, site=None, action=None, audit=True, extendors=False):
         newworld()
         self.flavour = flavour
         self.site = site
@@ -140,17 +140,18 @@ class World:
         self.reg.register([self.I0], self.P, '', self.fOLD)
         self.reg.subscribe([self.I0], self.P, F('S_OLD', self))
         self.base.register([self.I0], self.P, 'b', F('BASE', self))
-        # two more provided interfaces extending P, so that the list of
-        # extendors walked by a lookup for P is [P, PA, PB]: PA belongs to an
-        # unrelated registration (required X), the answer for name 'e' and one
-        # subscriber are found under PB, i.e. *after* PA in that list
-        self.PA = mk('PA', self.P)
-        self.PB = mk('PB', self.P)
-        # (a newly registered interface goes in front of the unrelated ones)
-        self.reg.register([self.I0], self.PB, 'e', F('EB', self))
-        self.reg.subscribe([self.I0], self.PB, F('S_B', self))
-        self.reg.register([self.X], self.PA, '', F('XA', self))
-        assert self.reg._v_lookup._extendors[self.P] == [self.P, self.PA, self.PB]
+        if extendors:
+            # two more provided interfaces extending P, so that the list of
+            # extendors walked by a lookup for P is [P, PA, PB]: PA belongs to an
+            # unrelated registration (required X), the answer for name 'e' and one
+            # subscriber are found under PB, i.e. *after* PA in that list
+            self.PA = mk('PA', self.P)
+            self.PB = mk('PB', self.P)
+            # (a newly registered interface goes in front of the unrelated ones)
+            self.reg.register([self.I0], self.PB, 'e', F('EB', self))
+            self.reg.subscribe([self.I0], self.PB, F('S_B', self))
+            self.reg.register([self.X], self.PA, '', F('XA', self))
+            assert self.reg._v_lookup._extendors[self.P] == [self.P, self.PA, self.PB]
 
         class K:
             @property
@@ -297,9 +298,9 @@ class World:
         raise AssertionError(entry)
 
 
-ENTRIES = ['lookup', 'lookup-default', 'lookup-e', 'lookup1', 'lookupAll', 'names', 'subscriptions',
+ENTRIES = ['lookup', 'lookup-default', 'lookup1', 'lookupAll', 'names', 'subscriptions',
            'queryAdapter', 'adapter_hook', 'queryMultiAdapter', 'subscribers', 'I(obj)']
-LAZY_OK = {'lookup', 'lookup-default', 'lookup-e', 'lookupAll', 'names', 'subscriptions'}
+LAZY_OK = {'lookup', 'lookup-default', 'lookupAll', 'names', 'subscriptions'}
 ACTIONS = ['nop', 'register-better', 'register-other-name', 'unregister-winner', 'subscribe',
            'unsubscribe', 'register-in-base', 'rebase-registry', 'rebase-interface', 'changed',
            'lookup.changed', 'reenter-same', 'reenter-other', 'gc', 'raise',
@@ -484,6 +485,7 @@ MUTATORS = {
     'unregister-unrelated-extendor': lambda w: w.reg.unregister([w.X], w.PA, ''),
 }
 SPEC_MUTATORS = ('classImplements', 'rebase-interface')
+EXT_MUTATORS = ('unregister-unrelated-extendor',)     # run in the world with [P, PA, PB]
 SCHED_ENTRIES = ['lookup', 'lookup1', 'lookupAll', 'subscriptions', 'queryAdapter', 'adapter_hook']
 
 
@@ -491,8 +493,8 @@ class SchedWorld(World):
     """World whose uncached hooks run the ownership audit instead of an action
     (the 'action' is whatever the other thread does meanwhile)."""
 
-    def __init__(self, flavour):
-        World.__init__(self, flavour, site=None, action=None, audit=True)
+    def __init__(self, flavour, extendors=False):
+        World.__init__(self, flavour, site=None, action=None, audit=True, extendors=extendors)
         self.audits = []
         self.in_flight = {}
 
@@ -525,7 +527,7 @@ class SchedWorld(World):
 
 def make_harness(flavour, mutator, entries):
     def make():
-        w = SchedWorld(flavour)
+        w = SchedWorld(flavour, extendors=(mutator in EXT_MUTATORS))
         bodies = []
         if mutator:
             bodies.append(lambda: MUTATORS[mutator](w))
@@ -539,8 +541,9 @@ def make_check(flavour, mutator, entries):
     nm = 1 if mutator else 0
 
     def answers():
-        tb = World(flavour, audit=False)
-        ta = World(flavour, audit=False)
+        ext = mutator in EXT_MUTATORS
+        tb = World(flavour, audit=False, extendors=ext)
+        ta = World(flavour, audit=False, extendors=ext)
         if mutator:
             MUTATORS[mutator](ta)
         return ([norm(tb.call(e)) for e in entries], [norm(ta.call(e)) for e in entries],
@@ -603,7 +606,7 @@ def make_check(flavour, mutator, entries):
 
 
 def World_after(flavour, mutator):
-    t = World(flavour, audit=False)
+    t = World(flavour, audit=False, extendors=(mutator in EXT_MUTATORS))
     if mutator:
         MUTATORS[mutator](t)
     return t
